@@ -32,11 +32,11 @@ def run(ctx, col, tier):
                         "adjacency-matrix values"]
     col.assumptions += ["well-formed tree: ids equal positions"]
 
-    spaces(ctx, col)
-    accessors(ctx, col)
-    purity(ctx, col)
-    idxnorm(ctx, col)
-    segments(ctx, col)
+    col.guard(spaces, ctx, col)
+    col.guard(accessors, ctx, col)
+    col.guard(purity, ctx, col)
+    col.guard(idxnorm, ctx, col)
+    col.guard(segments, ctx, col)
 
 
 # --------------------------------------------------------------------- R-SPACE
